@@ -226,6 +226,10 @@ class IdIndex(Index):
         elif operation == "delete":
             txn.delete(self.to_key(event.id))
 
+    def scanner(self, txn, matches, since=None, until=None, events=FakeContainer()):
+        # id keys carry no timestamp: the time window is checked by the matcher
+        return super().scanner(txn, matches, events=events)
+
 
 class CreatedIndex(Index):
     prefix = b"\x01"
